@@ -163,7 +163,7 @@ def r2_header_once(ctx):
     for e in empties:
         ok = bool(hdr_tests) and all(g.dominates(t, e) for t in hdr_tests)
         ctx.ob(f.where, "writing an empty table still writes the header first (a file that received only empty tables is a valid, header-only file): the early return for "
-               "empty data is placed after the header decision", ok, f"line {e.ast.lineno}", key="C03-R2|empty-after-header")
+               "empty data is placed after the header decision", ok, f"line {e.ast.lineno}", key="C03-R2|empty-after-header", definite=True)
     ctx.count("early returns for empty data", len(empties))
     # stream cases recurse into the same writer and return
     loops = [n for n in g.nodes if n.kind == "for"]
